@@ -63,7 +63,10 @@ def concatenate {α} (nan : α) (arrays : List (DimArray α)) (axis : DimKey) (d
   let a0 ← match arrays with | a :: _ => pure a | [] => .error .index
   let pos ← match axis with
     | .name s => let p := a0.dims.idxOf s; if p < a0.dims.length then pure p else .error .value
-    | .pos i => if i < 0 || i ≥ (a0.ndim : Int) then .error .index else pure i.toNat
+    | .pos i =>
+      -- `arrays[0].dims[axis]` (negative positions count from the end), then `dims.index(dim)`
+      let i := if i < 0 then i + (a0.ndim : Int) else i
+      if i < 0 || i ≥ (a0.ndim : Int) then .error .index else pure i.toNat
   let dim := a0.dims.getD pos ""
   -- align secondary axes prior to concatenate
   let arrays ← if doAlign then
